@@ -309,6 +309,8 @@ class CallableParallelExecution(
         # Sort the outputs with the same order as functions.
         ordered_outputs: list[ReturnT | None] = [None] * n_tasks
         n_outputs = 0
+        # The last retrieved output, if any.
+        output = None
         # Retrieve outputs on the fly to call the callbacks, typically
         # iterates progress bar and stores the data in database or cache.
         stop = False
